@@ -66,6 +66,7 @@ from .changes import (
 
 
 TGraphQLType = TypeVar("TGraphQLType", bound=GraphQLType)
+TSchemaChange = TypeVar("TSchemaChange", bound=SchemaChange)
 
 
 __all__ = (
@@ -145,8 +146,9 @@ def diff_schema(
     to detect this  without looking at the queries being run against the schema
     so this classification errs on the side of safety.
 
-    Some compatible type changes are ignored given that they should not lead to
-    any change in client behavior.
+    Compatible type changes (e.g. an argument going from ``Int!`` to ``Int``)
+    should not lead to any change in client behavior and are reported with
+    the ``COMPATIBLE`` severity.
 
     Args:
         old_schema: Source schema
@@ -301,7 +303,16 @@ def _diff_directive_arguments(
                 yield DirectiveArgumentChangedType(
                     old_directive, old_arg, new_arg
                 )
-            elif (
+                continue
+
+            if str(old_arg.type) != str(new_arg.type):
+                yield _compatible(
+                    DirectiveArgumentChangedType(
+                        old_directive, old_arg, new_arg
+                    )
+                )
+
+            if (
                 (old_arg.has_default_value and not new_arg.has_default_value)
                 or (not old_arg.has_default_value and new_arg.has_default_value)
                 or (
@@ -335,7 +346,16 @@ def _diff_field_arguments(
                 yield FieldArgumentChangedType(
                     parent, old_field, old_arg, new_arg
                 )
-            elif (
+                continue
+
+            if str(old_arg.type) != str(new_arg.type):
+                yield _compatible(
+                    FieldArgumentChangedType(
+                        parent, old_field, old_arg, new_arg
+                    )
+                )
+
+            if (
                 (old_arg.has_default_value and not new_arg.has_default_value)
                 or (not old_arg.has_default_value and new_arg.has_default_value)
                 or (
@@ -350,6 +370,12 @@ def _diff_field_arguments(
     for name, new_arg in new_args.items():
         if name not in old_args:
             yield FieldArgumentAdded(parent, new_field, new_arg)
+
+
+def _compatible(change: TSchemaChange) -> TSchemaChange:
+    # Type changes which are safe for clients are reported nonetheless.
+    change.severity = SchemaChangeSeverity.COMPATIBLE
+    return change
 
 
 def _is_safe_input_type_change(
@@ -449,6 +475,8 @@ def _diff_field(
 ) -> Iterator[SchemaChange]:
     if not _is_safe_output_type_change(old.type, new.type):
         yield FieldChangedType(parent_type, old, new)
+    elif str(old.type) != str(new.type):
+        yield _compatible(FieldChangedType(parent_type, old, new))
 
     for d in _diff_field_arguments(parent_type, old, new):
         yield d
@@ -479,7 +507,14 @@ def _diff_input_types(old: Schema, new: Schema) -> Iterator[SchemaChange]:
                     old_field.type, new_field.type
                 ):
                     yield InputFieldChangedType(old_type, old_field, new_field)
-                elif (
+                    continue
+
+                if str(old_field.type) != str(new_field.type):
+                    yield _compatible(
+                        InputFieldChangedType(old_type, old_field, new_field)
+                    )
+
+                if (
                     (
                         old_field.has_default_value
                         and not new_field.has_default_value
